@@ -20,7 +20,7 @@ EXPLANATION = (
     ' Added later: R1 also demands that the read path refuses nothing itself: no raise of its own and `no message` only without a reader, on a failed checksum or inside the DecodeError handler (every length the 2-byte field can announce is legal).'
 )
 ASSUMPTIONS = ["asyncio.StreamReader.readexactly(n) returns exactly n bytes or raises IncompleteReadError, independent of how the bytes arrive"]
-FLOORS = {"C13.R1": 5, "C13.R2": 3, "C13.R3": 2, "C13.R4": 1, "C13.R5": 1, "C13.R6": 1}
+FLOORS = {"C13.R1": 5, "C13.R2": 3, "C13.R3": 2, "C13.R4": 1, "C13.R5": 1, "C13.R6": 1, "C13.R7": 1}
 
 
 def run(ctx):
@@ -36,6 +36,7 @@ def run(ctx):
 
     reuse(ctx, "C13.R6", [c03.r2], "the header codec refuses a header only for a wrong prefix or inconsistent lengths: a frame that is legal on the wire is never the cause of a reset that loses the frames behind it (C03.R2)",
           keep=lambda o: "rejects" in o.construct or o.verdict != "HOLDS")
+    reuse(ctx, "C13.R7", [c07.r1, c07.r11], "a bad frame is followed by an awaited reset before anything else is read, and each socket's tasks are its own: what is delivered depends on the byte stream only (C07.R1, C07.R11)")
     reuse(ctx, "C13.R5", [c07.r2], "after a rejected frame the old stream is dropped together with the connection (reader and writer cleared), so what is delivered never depends on whether later bytes were already buffered in the abandoned reader (C07.R2)")
     reuse(ctx, "C13.R4", [c12.r4], "each frame is delivered once per subscriber: subscriber containers are sets (a repeated subscribe after re-init does not duplicate deliveries)", keep=lambda o: "AirTouchSocket" in o.construct)
 
